@@ -689,6 +689,9 @@ def hdrBase (s : Module) (o : Opts) : Nat := insBase s o + 554 * nIns s o
 def patBase (s : Module) (o : Opts) : Nat := hdrBase s o + 80 * s.smps.length
 def smpBase (s : Module) (o : Opts) : Nat := patBase s o + ((patBlobs s.chn o s.pats 0 0).map (·.length)).sum
 
+/-- size of the written file, from the sizes of its parts (the headers have fixed sizes) -/
+def fileSize (s : Module) (o : Opts) : Nat := smpBase s o + ((smpBlobs o s.smps 0).map (·.length)).sum
+
 def patOffs (s : Module) (o : Opts) : List Nat := patOffsOf (patBase s o) (patBlobs s.chn o s.pats 0 0)
 def smpOffs (s : Module) (o : Opts) : List Nat := offsets (smpBase s o) (smpBlobs o s.smps 0)
 
@@ -886,14 +889,14 @@ def WellFormed (s : Module) (o : Opts) : Prop :=
   NameOk 25 s.name ∧ S3m.startsValid s.pats.length s.orders = true ∧ (1 ≤ s.chn ∧ s.chn ≤ 64) ∧
   s.orders.length ≤ 256 ∧
   (1 ≤ s.pats.length ∧ s.pats.length ≤ 200) ∧ (∀ p ∈ s.pats, PatOk s.chn p) ∧
-  s.smps.length ≤ 99 ∧
-  -- sample mode: one instrument per sample; instrument mode: up to 99 instruments with key maps
-  (if o.insMode then s.ins.length ≤ 99 ∧ o.cmwt < 0x10000 ∧ InssOkI o s.smps.length 0 s.ins ∧ SmpsOkI o 0 s.smps
+  s.smps.length ≤ 255 ∧
+  -- sample mode: one instrument per sample; instrument mode: instruments with key maps (the loader accepts up to 255 of each)
+  (if o.insMode then s.ins.length ≤ 255 ∧ o.cmwt < 0x10000 ∧ InssOkI o s.smps.length 0 s.ins ∧ SmpsOkI o 0 s.smps
    else SlotsOk 0 s.ins s.smps) ∧
   (1 ≤ s.spd ∧ s.spd ≤ 255) ∧ (32 ≤ s.bpm ∧ s.bpm ≤ 255) ∧
   o.gv.toNat ≤ 128 ∧ (match o.history with | some n => n < 65536 | none => True) ∧ o.midi < 4 ∧
   -- the format's field widths: 16-bit packed-pattern length (worst case 7 bytes per cell), 32-bit file offsets
-  (∀ p ∈ s.pats, p.rows * (7 * s.chn + 1) ≤ 65535) ∧ (write s o).length < 0x100000000
+  (∀ p ∈ s.pats, p.rows * (7 * s.chn + 1) ≤ 65535) ∧ fileSize s o < 0x100000000
 
 instance (s : Module) (o : Opts) : Decidable (WellFormed s o) := by
   unfold WellFormed
